@@ -26,6 +26,27 @@ def run(ctx):
     F = ctx.body(SEND)
     push = ctx.sites(F, 'PendingTxs::push', 1)
     ctx.guard('C18.r1', F, 'verify_tx', 'Ok', push)
+    # provenance: the pooled transaction is the verified one and the recorded cycles are the verifier's result
+    fdu = DefUse(F)
+    pt = F.blocks[push[0][0]].term
+    vt = P.call_sites(F, 'verify_tx')[0][1]
+    ctx.ob('C18.r1', F.name, 'the cycles stored with a pooled transaction are the result of verify_tx', fdu.from_call(pt.args[2], 'verify_tx'), at=pt.span)
+    txl = F.debug.get('tx')
+    def srcs(op):
+        out = set()
+        stack = [int(x) for x in re.findall(r'_(\d+)', op)]
+        while stack:
+            l = stack.pop()
+            if l in out:
+                continue
+            out.add(l)
+            for kind, bid, obj in fdu.defs.get(l, []):
+                if kind == 'assign':
+                    stack += [int(x) for x in re.findall(r'_(\d+)', obj.rhs)]
+                elif kind == 'call' and (obj.callee.endswith('::clone') or 'Clone>::clone' in obj.callee or 'Deref' in obj.callee):
+                    stack += [int(x) for x in re.findall(r'_(\d+)', obj.args[0])]
+        return {'_%d' % x for x in out}
+    ctx.ob('C18.r1', F.name, 'the pooled transaction is the one that was verified', bool(txl) and txl in srcs(pt.args[1]) and txl in srcs(vt.args[0]), at=pt.span)
     E = ctx.body('<ChainRpcImpl as ChainRpc>::estimate_cycles')
     ctx.ob('C18.r1', E.name, 'estimate_cycles cannot reach the pool', 'PendingTxs::push' not in P.transitive_callees(E.name))
     ctx.ob('C18.r1', E.name, 'estimate_cycles verifies through verify_tx', bool(P.call_sites(E, 'verify_tx')))
